@@ -48,7 +48,10 @@ def theta_arg(case, theta):
     form = case.get("theta_form", "float")
     if form == "float" or not np.array_equal(theta, np.round(theta)):
         return theta.copy()
-    return theta.astype(form)
+    with np.errstate(all="ignore"):
+        out = theta.astype(form)
+    # (only forms that hold these whole numbers exactly: int8 to 127, float16 to 2048)
+    return out if np.array_equal(out.astype(float), theta) else theta.copy()
 
 
 def second_theta(case, X, y, ys, spec):
@@ -132,7 +135,7 @@ def score_cases(draw, max_n=20):
     case["theta_u2"] = [draw(gc.unit) for _ in case["theta_u"]]
     case["mean_u2"] = [draw(gc.unit) for _ in case["mean_u"]]
     # (an array: the documented type; a Python list is outside the documented domain - list arithmetic differs)
-    case["theta_form"] = draw(st.sampled_from(["float", "float", "float", "int64", "int32"]))
+    case["theta_form"] = draw(st.sampled_from(["float", "float", "float", "int64", "int32", "int16", "int8", "float32", "float16"]))
     return case
 
 
